@@ -237,6 +237,9 @@ def run(cx):
     # the tail of a flushed stream is delivered only if the receiver's scan bound follows the ids across the wrap
     from props.idarith import id_arith_discipline
     id_arith_discipline(cx, "C09.p")
+    from props.shared import window_walks, removal_implies_fin
+    window_walks(cx, "C09.q")
+    removal_implies_fin(cx, "C09.r")
 
 
 SELFTEST = [
